@@ -564,6 +564,19 @@ class Merger:
     @staticmethod
     def _same_value(lhs: Any, rhs: Any) -> bool:
         """Indicate whether two values are equal also as YAML values."""
+        if isinstance(lhs, dict) and isinstance(rhs, dict):
+            return bool(
+                len(lhs) == len(rhs)
+                and all(
+                    key in rhs and Merger._same_value(val, rhs[key])
+                    for key, val in lhs.items()))
+        if (isinstance(lhs, list) and isinstance(rhs, list)
+                and not isinstance(lhs, str) and not isinstance(rhs, str)):
+            return bool(
+                len(lhs) == len(rhs)
+                and all(
+                    Merger._same_value(lele, rele)
+                    for lele, rele in zip(lhs, rhs)))
         return bool(
             lhs == rhs
             and Merger._scalar_kind(lhs) == Merger._scalar_kind(rhs))
